@@ -210,8 +210,8 @@ impl Prop for C07Prop {
     fn extra_evidence(&self) -> Option<J> {
         let mut j = static_scan();
         // summaries written by the real-rayon engines during this check (checks/C07.sh runs them first)
-        for (key, file) in [("engine_c_native_rayon", "/verif/target/c07-native.json"), ("engine_b_miri", "/verif/target/c07-miri.json")] {
-            if let Ok(s) = std::fs::read_to_string(file) {
+        for (key, file) in [("engine_c_native_rayon", "target/c07-native.json"), ("engine_b_miri", "target/c07-miri.json")] {
+            if let Ok(s) = std::fs::read_to_string(format!("{}/{}", rt::verif_dir(), file)) {
                 if let Ok(x) = J::parse(&s) {
                     j.put(key, x);
                 }
@@ -247,7 +247,7 @@ pub fn static_scan() -> J {
             }
         }
     }
-    walk(std::path::Path::new("/repo/src"), &mut |p| {
+    walk(std::path::Path::new(&format!("{}/src", rt::repo_dir())), &mut |p| {
         let name = p.to_string_lossy().to_string();
         if name.contains("/main-") || name.ends_with("verif.rs") {
             return;
